@@ -308,6 +308,15 @@ fn run(id: &str, tier: Tier) -> i32 {
     }
 
     // 2. exploration
+    // (scratch directories of runs that were killed from outside may be left behind: drop old ones)
+    if let Ok(rd) = std::fs::read_dir(ctx.root.join("harness/target/scratch")) {
+        for e in rd.flatten() {
+            let old = e.metadata().and_then(|m| m.modified()).ok().and_then(|t| t.elapsed().ok()).is_some_and(|d| d.as_secs() > 8 * 3600);
+            if old {
+                remove_scratch(&e.path());
+            }
+        }
+    }
     let outdir = ctx.root.join(format!("harness/target/scratch/{id}-{}-{}", tier.name(), std::process::id()));
     remove_scratch(&outdir);
     let timeout_s = match tier {
